@@ -96,6 +96,7 @@ type rewriter struct {
 	tmp     int
 	err     error
 	commMark map[ast.Stmt]bool
+	callsHit map[string]bool
 }
 
 func instrument(path string, fc FileCfg) ([]byte, error) {
@@ -104,7 +105,7 @@ func instrument(path string, fc FileCfg) ([]byte, error) {
 	if err != nil {
 		return nil, err
 	}
-	rw := &rewriter{fset: fset, fc: fc, commMark: map[ast.Stmt]bool{}}
+	rw := &rewriter{fset: fset, fc: fc, commMark: map[ast.Stmt]bool{}, callsHit: map[string]bool{}}
 
 	// imports
 	for _, imp := range f.Imports {
@@ -140,6 +141,11 @@ func instrument(path string, fc FileCfg) ([]byte, error) {
 	astutil.Apply(f, rw.pre, rw.post)
 	if rw.err != nil {
 		return nil, rw.err
+	}
+	for k := range fc.Calls {
+		if !rw.callsHit[k] {
+			return nil, fmt.Errorf("call %s not found (was it renamed?)", k)
+		}
 	}
 	if rw.usedVrt {
 		astutil.AddNamedImport(fset, f, "zzvrt", modPath+"vrt")
@@ -372,14 +378,17 @@ func (rw *rewriter) post(c *astutil.Cursor) bool {
 	case *ast.CallExpr:
 		if len(rw.fc.Calls) > 0 {
 			if se, ok := n.Fun.(*ast.SelectorExpr); ok {
-				if id, ok := se.X.(*ast.Ident); ok {
-					if repl, ok := rw.fc.Calls[id.Name+"."+se.Sel.Name]; ok {
-						parts := strings.SplitN(repl, ".", 2)
-						if parts[0] == "vrt" {
-							n.Fun = rw.vrt(parts[1])
-						} else {
-							n.Fun = ast.NewIdent(repl)
-						}
+				if repl, ok := rw.fc.Calls[exprText(rw.fset, se)]; ok {
+					rw.callsHit[exprText(rw.fset, se)] = true
+					switch {
+					case strings.HasPrefix(repl, "@"):
+						// method call routed through a function taking the receiver first
+						n.Args = append([]ast.Expr{se.X}, n.Args...)
+						n.Fun = ast.NewIdent(repl[1:])
+					case strings.HasPrefix(repl, "vrt."):
+						n.Fun = rw.vrt(repl[4:])
+					default:
+						n.Fun = ast.NewIdent(repl)
 					}
 				}
 			}
